@@ -147,7 +147,8 @@ reg("C10", p_meta.c10, {"R-ORDER": 6, "R-WHO": 8, "R-TABLE": 1}, ["r_order"],
          "no descriptor duplication, pool jobs own an Arc<CopyHandle>.",
     technique="dominance/reachability ordering rules, config-flag control dependence, provenance of the mode argument, who-may-call",
     decided="(a) fchown cannot follow fchmod and no data write can follow the timestamp setter; (b) permissions/"
-            "timestamps/ownership/fsync are each guarded by their own flag with the correct polarity; (e) the full "
+            "timestamps/ownership/fsync are each guarded by their own flag with the correct polarity and cannot be skipped "
+            "quietly when the flag asks for them; (e) the full "
             "source mode is applied unmasked; (d) metadata is applied only by the handle's Drop, which ownership "
             "orders after the last writer.",
     not_decided="nanosecond equality, xattr contents, effect of umask, ACL handling by the kernel.")
@@ -156,7 +157,7 @@ reg("C18", p_meta.c18, {"R-ORDER": 1, "R-WHO": 8}, ["r_order"],
     rule="gated(sync, Config.fsync, true) and required-when(fsync == true): every path to the end of the finalisation passes "
          "sync or a failure signal; never_after(fsync, data write); sync reaches fsync(2); ownership facts of C06(c).",
     technique="config-flag control dependence + ordering + ownership/who-may-call facts (no schedule exploration)",
-    decided="fsync is issued iff requested, inside the finalisation that only the handle's Drop runs; nothing writes "
+    decided="fsync is issued iff requested (and no path through the finalisation skips it quietly when requested), inside the finalisation that only the handle's Drop runs; nothing writes "
             "data after it; the handle cannot be cloned nor its descriptors duplicated, so Drop runs after the last "
             "block job on every schedule.",
     not_decided="durability semantics of the kernel; that a failed fsync is reported is C04.")
@@ -197,7 +198,8 @@ reg("C09", p_gate.c09, {"R-ORDER": 2, "R-TABLE": 5, "R-ERR": 8}, ["r_order", "r_
     technique="dominance/ordering + provenance of the rename target + lossy-conversion who-may-call + error discipline on the scan",
     decided="(a) the old file is preserved by one atomic rename to the computed backup name before the destination is "
             "re-created (so at every instant the old content is under one of the two names); (b) names are compared "
-            "byte-exactly; (c) a failed directory read cannot lower the computed maximum; (d) the mode table.",
+            "byte-exactly; (c) a failed directory read cannot lower the computed maximum; (d) the mode table; (e) earlier "
+            "backups are looked for in the directory the new one is named in.",
     not_decided="N = max+1 as arithmetic, the regex's language, overflow at u64::MAX, prefix-related names (only raise N).")
 
 reg("C13", p_gate.c13, {"R-TABLE": 2, "R-ORDER": 1, "R-ERR": 3}, ["r_order"],
@@ -271,7 +273,8 @@ reg("C16", p_kinds.c16, {"R-WHO": 2, "R-ORDER": 8, "R-SIB": 1}, ["r_order"],
          "and is_dir(dest) == false assumed (excluded edges removed) the spawn is unreachable except through a failure signal.",
     technique="prefix-effect rule over the call graph + dominance + must-fail reachability under assumed facts + sibling comparison",
     decided="no rejection can come after something was created/truncated/copied: validation of all sources precedes the "
-            "start of the driver and touches nothing.",
+            "start of the driver and touches nothing; several sources with a destination that is not a directory (missing "
+            "included) never start the copy.",
     not_decided="completeness of the rejection classes for every argument position (value-dependent); clap's own parsing.")
 
 reg("C06", p_thread.c06, {"R-ORDER": 2, "R-WHO": 10, "R-THREAD": 6, "R-SIB": 6, "R-TABLE": 3}, ["r_order", "r_err"],
@@ -284,7 +287,8 @@ reg("C06", p_thread.c06, {"R-ORDER": 2, "R-WHO": 10, "R-THREAD": 6, "R-SIB": 6, 
     technique="ownership/who-may-call facts + spawn/join pairing + sibling agreement + abstract interpretation of the "
               "block-splitting arithmetic in a polynomial domain with a ceil-division lemma (no schedule exploration)",
     decided="the mechanisms that make the outcome schedule-independent: directory-before-children by construction, no shared "
-            "cursor, metadata after the last writer by ownership, joins before success, driver agreement.",
+            "cursor, metadata after the last writer by ownership, joins before success, driver agreement, block jobs that tile "
+            "their range.",
     not_decided="equality of the final tree across schedules in general (two sources mapping onto one destination path race by design).")
 
 reg("C07", p_thread.c07, {"R-THREAD": 18, "R-ERR": 30, "R-WHO": 3}, ["r_order", "r_err"],
@@ -319,7 +323,8 @@ reg("C01", p_copy.c01, {"R-SHORT": 9, "R-TABLE": 4, "R-ROLE": 20}, ["r_short", "
               "abstract interpretation of the block-splitting arithmetic in a polynomial domain",
     decided="nothing of a previous destination survives (truncate + size from the source before any data call); no byte "
             "count returned by the kernel is dropped on a success path; data moves from the source descriptor to the "
-            "destination descriptor at explicit offsets in block jobs.",
+            "destination descriptor at explicit offsets in block jobs, which lie inside the range they were cut from and (for "
+            "a `lo..hi` job loop whose arithmetic resolves) tile it without gap; a short read is never overwritten in the buffer.",
     not_decided="coverage of a range by jobs of any other shape than a `lo..hi` loop with resolving expressions (listed as "
                 "undecided in the evidence), the sparse walk's coverage, and byte equality itself: numeric/relational over "
                 "run-time values.")
@@ -342,7 +347,8 @@ reg("C05", p_copy.c05, {"R-SHORT": 9, "R-ERR": 60, "R-WHO": 2}, ["r_short", "r_e
     technique="short-count dataflow over two build configurations + error discipline + fallback reachability",
     decided="a short count from copy_file_range/pread/pwrite/read/write is always retried to completion, checked against the "
             "request, or surfaces as Err; an unsupported facility takes a fallback whose consumer reaches the user-space "
-            "copier or propagates.",
+            "copier or propagates; the user-space copier writes out what a short read delivered before reading again into the "
+            "same buffer position.",
     not_decided="byte placement by the kernel; the zero-progress case (a 0 return inside the requested range arises only "
                 "from concurrent truncation); which errnos fall back is not a condition of the property.")
 
@@ -358,7 +364,7 @@ reg("C19", p_sparse.c19, {"R-OWN": 4, "R-TABLE": 6, "R-ORDER": 1}, ["r_order"],
          "length; the hole search starts at the data offset found.",
     technique="ownership (linearity) of extent values over the CFG + provenance of range boundaries + dominance",
     decided="coverage is never dropped by xcp's own code: every extent the kernel reports is forwarded, merging consumes "
-            "every input and begins/ends at input boundaries, segment offsets are the kernel's answers.",
+            "every input, begins/ends at input boundaries and never shrinks the pending extent, segment offsets are the kernel's answers.",
     not_decided="that the kernel's extents are ordered, non-overlapping and that bytes outside them read as zero (kernel "
                 "semantics); whether `p.end + 1` is the right adjacency constant, and FIEMAP paging termination (arithmetic over run-time values). "
                 "This is a narrow claim: the relation between the map and the file's bytes itself is not decided.")
